@@ -560,11 +560,15 @@ func c12Restart(js1, js2 string) (o c12RestartObs) {
 	restarting := false
 	calls := []string{}
 	withRun := func(js string, run string) []byte {
-		t := strings.TrimSpace(js)
-		if t == "{}" {
-			return []byte(`{"agent_run_id":"` + run + `"}`)
+		// the two runs get run ids of their own (a reply text that names one is overridden): verdicts that arrive late
+		// for the first run must not be taken for verdicts on the second
+		var m map[string]json.RawMessage
+		if json.Unmarshal([]byte(js), &m) != nil || m == nil {
+			m = map[string]json.RawMessage{}
 		}
-		return []byte(`{"agent_run_id":"` + run + `",` + t[1:])
+		m["agent_run_id"] = json.RawMessage(`"` + run + `"`)
+		b, _ := json.Marshal(m)
+		return b
 	}
 	client := collector.ClientFn(func(cmd *collector.RpmCmd, cs collector.RpmControls) collector.RPMResponse {
 		cs.Collectible.CollectorJSON(false)
